@@ -86,6 +86,13 @@ def main():
         _f.__qualname__ = _orig.__qualname__
         _f.__code__ = _f.__code__.replace(co_firstlineno=_orig.__code__.co_firstlineno, co_filename=_orig.__code__.co_filename)
         Base = DDLParser
+        # PLY keeps the table file of a parser class next to the module that DEFINES the class.  The user's module of this
+        # scenario lives in the incarnation's private tree (never in the harness directory, which every worker shares).
+        import types as _types
+        _um = _types.ModuleType("verif_userdialect")
+        _um.__file__ = os.path.join(tree, "verif_userdialect.py")
+        sys.modules["verif_userdialect"] = _um
+        _cls_ns = {"__module__": "verif_userdialect"}
         if sub.get("order") == "base_first":
             try:
                 Base("create table verif_base_first (a int not null);").run()
@@ -93,14 +100,14 @@ def main():
                 res["ctor_exc"] = ["ctor-exc", type(e).__name__, str(e)[:200]]
         if sub.get("order") == "mutate_after_first":
             # the class exists (and one object of it was built) BEFORE a plug-in changes its grammar in place
-            DDLParser = type("UserDialect", (Base,), {})
+            DDLParser = type("UserDialect", (Base,), dict(_cls_ns))
             try:
                 DDLParser("create table verif_before_plugin (a int not null);").run()
             except BaseException as e:  # noqa
                 res["ctor_exc"] = ["ctor-exc", type(e).__name__, str(e)[:200]]
             setattr(DDLParser, sub["rule"], _f)
         else:
-            DDLParser = type("UserDialect", (Base,), {sub["rule"]: _f})
+            DDLParser = type("UserDialect", (Base,), dict(_cls_ns, **{sub["rule"]: _f}))
 
     def one(it):
         try:
@@ -130,6 +137,11 @@ def main():
     outs = [None] * len(items)
     for n, it in enumerate(items):
         if n == 0:
+            continue
+        if job.get("sequential"):
+            # sweep cells: the whole chunk in this one process, in order; the baseline is the SAME sequence under a valid
+            # cache, so whatever one script does to the next is the same on both sides
+            outs[n] = one(it)
             continue
         try:
             outs[n] = isolate.run_isolated(lambda it=it: one(it), timeout=300)
@@ -201,6 +213,17 @@ def main():
             res["tables_in_use"] = diffs
         except BaseException as e:  # noqa
             res["tables_in_use"] = ["could not inspect: %r" % (e,)]
+    if os.environ.get("VERIF_DEBUG_TORN") and res.get("ctor_exc") and "SyntaxError" in str(res["ctor_exc"]):
+        import shutil, subprocess, time as _t
+        d = "/dev/shm/torn-%d" % os.getpid()
+        os.makedirs(d, exist_ok=True)
+        try:
+            shutil.copyfile(pt, d + "/parsetab.py")
+        except OSError:
+            pass
+        with open(d + "/info.txt", "w") as f:
+            f.write(json.dumps({k: job.get(k) for k in ("write_fault", "crash_at", "subclass", "sequential", "force_optimize")}) + "\n")
+            f.write(subprocess.run(["ps", "-eo", "pid,ppid,etimes,cmd"], stdout=subprocess.PIPE, text=True).stdout)
     after = _sha(pt)
     res["rewritten"] = before != after
     res["cache_present_after"] = after is not None
